@@ -97,13 +97,13 @@ def gen_cases(rng, tier):
     else:
         extra = [s for s in all_shapes(4, 4, mindim=1) if s not in small]
         big = []
-        for _ in range(300):
+        for _ in range(200):
             d = rng.randint(1, 5)
             s = [rng.randint(1, 7) for _ in range(d)]
             if int(np.prod(s)) <= 1500:
                 big.append(s)
     shapes = small + extra + big
-    W = 1 if quick else 4          # sampling width multiplier
+    W = 1 if quick else 3          # sampling width multiplier
 
     def axes_of(d):
         return list(range(-d, d))
@@ -637,32 +637,37 @@ def run(ctx):
         ctx.inconc("pad/resize/expand/sliding_window models disagree with the shipped expectations (%d of %d): %s" % (len(bad), nvec, "; ".join(bad[:3])))
         return
     cases = gen_cases(ctx.rng, ctx.tier)
-    res = V.run_module_cases(HARNESS, cases, "asan", parse=parse)
     acc = HookAcc()
     norec = 0
+    ncrash = 0
     per_op = {}
-    for cr in res:
-        op = cr.m["op"]
-        for (site, f0, f1) in V.hook_problems(cr, acc):
-            ctx.violation("%s:%s:value" % (op, argclass(cr.m) if op != "<exit>" else "-"),
-                          "hook %s: index %d outside bound %d in %s" % (site, f0, f1, cr.line), dict(line=cr.line))
-        oracle(ctx, cr)
-        per_op[op] = per_op.get(op, 0) + 1
-        if cr.rec is None and cr.crash is None and not cr.timeout:
-            norec += 1
+    CHUNK = 30000          # records are judged and dropped chunk by chunk (a thorough run has ~4e5 cases)
+    for k0 in range(0, len(cases), CHUNK):
+        res = V.run_module_cases(HARNESS, cases[k0:k0 + CHUNK], "asan", parse=parse)
+        for cr in res:
+            op = cr.m["op"]
+            for (site, f0, f1) in V.hook_problems(cr, acc):
+                ctx.violation("%s:%s:value" % (op, argclass(cr.m) if op != "<exit>" else "-"),
+                              "hook %s: index %d outside bound %d in %s" % (site, f0, f1, cr.line), dict(line=cr.line))
+            oracle(ctx, cr)
+            per_op[op] = per_op.get(op, 0) + 1
+            ncrash += cr.crash is not None
+            if cr.rec is None and cr.crash is None and not cr.timeout:
+                norec += 1
+        del res
     if norec:
         ctx.inconc("%d cases produced no record" % norec)
     ops = sorted({c["op"] for c in cases})
     ctx.rule = ("%d ops on label arrays; both tiers: every source shape of dim 1..3 extents 1..3 with the deterministic argument grids "
                 "(reps/repeats 1..3, every shift in [-2n,2n] per axis, all pad widths 0..2 per side for dim<=2, every valid +/- axis and None, "
                 "index lists with negative/repeated entries, every 0/1 condition, windows 1..n, offsets/k beyond both corners); quick adds 12 larger/dim-4 "
-                "shapes + 5 sampled; thorough: all shapes dim 1..4 extents 1..4 + 300 sampled up to dim 5. "
+                "shapes + 5 sampled; thorough: all shapes dim 1..4 extents 1..4 + 200 sampled up to dim 5. "
                 "distinct = (op, argument class, shape, arguments) whose reference has more than one element" % len(ops))
     ctx.set("hook_events", acc.summary())
     ctx.set("ops", ops)
     ctx.set("cases_per_op", per_op)
     ctx.set("cases_generated", len(cases))
-    ctx.set("crashes_contained", sum(1 for cr in res if cr.crash is not None))
+    ctx.set("crashes_contained", int(ncrash))
     ctx.set("all_violation_keys", sorted(ctx.viol))
     if acc.events.get(2, 0) == 0:
         ctx.inconc("view index hook never fired")
